@@ -94,6 +94,15 @@ def from_json(j):
     return tuple((k, from_json(kids)) for k, kids in j)
 
 
+def addr_name(case, tname, ni):
+    """name of the address Input used by the write in node ni: private, or one of a small shared pool (so that several
+    conditional writes use the SAME address wire object)"""
+    pool = case.get('addrs', {}).get(tname)
+    if pool is None:
+        return 'a_%s_%d' % (tname, ni)
+    return 'ap_%s_%d' % (tname, pool[str(ni)])
+
+
 # --- elaboration with the real API ----------------------------------------------------------------
 
 def elaborate(case):
@@ -136,7 +145,10 @@ def elaborate(case):
                 tgt = targets[tname]
                 d = pyrtl.Input(DW, 'd_%s_%d' % (tname, ni))
                 if isinstance(tgt, pyrtl.MemBlock):
-                    a = pyrtl.Input(AW, 'a_%s_%d' % (tname, ni))
+                    an = addr_name(case, tname, ni)
+                    a = pyrtl.working_block().wirevector_by_name.get(an)
+                    if a is None:
+                        a = pyrtl.Input(AW, an)
                     tgt[a] |= d
                 elif isinstance(tgt, pyrtl.Register):
                     tgt.next |= d
@@ -238,6 +250,15 @@ def cases(tier, seed):
             mask = rng.randrange(1, 1 << n)
             assign[t['name']] = {str(k): rng.choice(['pre', 'post']) for k in range(n) if mask >> k & 1}
         out.append({'shape': to_json(sh), 'targets': tg, 'assign': assign, 'K': 2, 'shared': rng.random() < 0.2})
+    # memory targets whose conditional writes share address wires (pool of two address Inputs)
+    for i in range(200 if tier == 'quick' else 1500):
+        sh = rng.choice(pool)
+        n = len(flatten(sh))
+        mask = rng.randrange(1, 1 << n)
+        amap = {str(k): rng.choice(['pre', 'post']) for k in range(n) if mask >> k & 1}
+        addrs = {k: rng.choice([0, 1, 1]) for k in amap}
+        out.append({'shape': to_json(sh), 'targets': [{'kind': 'mem', 'name': 't0'}], 'assign': {'t0': amap}, 'K': 2,
+                    'addrs': {'t0': addrs}})
     for sh in shapes5:
         n = 5
         reps = 1 if tier == 'quick' else 8
@@ -343,7 +364,7 @@ def run_case(case, ob, tier):
                     goals.append(('memread:%s@%d' % (name, t), got == z3.Select(arr, v.inp('ra_' + name, t, AW)), site + ':mem-read'))
                     new = arr
                     for i in idx:
-                        new = z3.If(act[i], z3.Store(arr, v.inp('a_%s_%d' % (name, i), t, AW), v.inp('d_%s_%d' % (name, i), t, DW)), new)
+                        new = z3.If(act[i], z3.Store(arr, v.inp(addr_name(case, name, i), t, AW), v.inp('d_%s_%d' % (name, i), t, DW)), new)
                     memstate[name] = new
                     continue
                 if kind in ('wire', 'wire_d'):
@@ -416,7 +437,7 @@ def replay(cex):
             if kind == 'mem':
                 exp = memstate[name].get(val('ra_' + name, t), 0)
                 if on:
-                    memstate[name][val('a_%s_%d' % (name, on[-1]), t)] = val('d_%s_%d' % (name, on[-1]), t)
+                    memstate[name][val(addr_name(case, name, on[-1]), t)] = val('d_%s_%d' % (name, on[-1]), t)
             elif kind in ('wire', 'wire_d'):
                 exp = val('d_%s_%d' % (name, on[-1]), t) if on else (val('dflt_' + name, t) if kind == 'wire_d' else 0)
             else:
